@@ -88,7 +88,7 @@ class Lex:
         if not s.eat(x):
             raise ValueError('expected %s got %s in %s' % (x, s.peek(), ' '.join(s.t[max(0, s.i - 6):s.i + 6])))
 
-def parse_type(lx):
+def parse_type(lx, nofn=False):
     t = lx.next()
     if re.fullmatch(r'i\d+', t): ty = IntT(int(t[1:]))
     elif t in ('double', 'float', 'x86_fp80'): ty = FltT(t)
@@ -111,7 +111,7 @@ def parse_type(lx):
         raise ValueError('type? ' + t)
     while True:
         if lx.peek() == '*': lx.next(); ty = PtrT(ty)
-        elif lx.peek() == '(':
+        elif lx.peek() == '(' and not nofn:
             depth = 0
             while True:
                 x = lx.next()
@@ -313,7 +313,17 @@ def parse_instr(l):
     elif op in ('call', 'invoke'):
         while lx.peek() in FMF or lx.peek() in ('fastcc', 'ccc', 'coldcc'): lx.next()
         skip_attrs(lx)
-        I.rty = parse_type(lx)
+        I.rty = parse_type(lx, nofn=True); I.variadic = False
+        if lx.peek() == '(':     # explicit function type (variadic callee): skip it
+            depth = 0
+            while True:
+                x = lx.next()
+                if x == '(': depth += 1
+                elif x == ')':
+                    depth -= 1
+                    if depth == 0: break
+                elif x == '...': I.variadic = True
+            while lx.peek() == '*': lx.next()
         callee = lx.next()
         if callee == 'bitcast':   # call through a constant bitcast
             lx.expect('('); parse_type(lx); callee = lx.next(); lx.expect('to'); parse_type(lx); lx.expect(')')
